@@ -356,14 +356,8 @@ func pairOnEveryReturn(build *ssa.Function) []string {
 			return
 		}
 		okPair := false
-		if sl, ok := core.Strip(ret.Results[0]).(*ssa.Slice); ok && sl.Low == nil && sl.High == nil {
-			if al, ok := sl.X.(*ssa.Alloc); ok {
-				if pt, ok := al.Type().Underlying().(*types.Pointer); ok {
-					if at, ok := pt.Elem().Underlying().(*types.Array); ok && at.Len() == 2 {
-						okPair = true
-					}
-				}
-			}
+		if es, ok := sliceElems(ret.Results[0], 0); ok && len(es) == 2 {
+			okPair = true
 		}
 		if !okPair {
 			problems = append(problems, "a path of the pair builder returns something other than the two postings (no postings at all for some bookings)")
